@@ -104,6 +104,54 @@ theorem truncList_levels (L : Nat) : ∀ (l : Nat) (ks : List Tree), l ≤ L →
     · exact truncList_levels L l ks hl p h
 end
 
+/-! ### the per-cell rule on the flat cell list is truncation of the tree -/
+
+mutual
+theorem flat_above (L : Nat) : ∀ (l : Nat) (t : Tree), L < l → (flat l t).filter (keepCell L) = []
+  | l, .leaf v, h => by simp [flat, keepCell]; omega
+  | l, .node v ks, h => by
+    simp only [flat, List.filter_cons]
+    have : keepCell L (l, true, v) = false := by simp [keepCell]; omega
+    rw [this]; simpa using flatList_above L (l+1) ks (by omega)
+theorem flatList_above (L : Nat) : ∀ (l : Nat) (ks : List Tree), L < l → (flat.flatList l ks).filter (keepCell L) = []
+  | _, [], _ => by simp [flat.flatList]
+  | l, k :: ks, h => by
+    simp only [flat.flatList, List.filter_append, flat_above L l k h, flatList_above L l ks h, List.append_nil]
+end
+
+mutual
+/-- **C12 (flat rule = truncation)**: filtering the stored cells of any tree with the loader's per-cell rule for the cap
+    `L` yields exactly the leaves of the tree truncated at `L`, in file order, each with its own (coarse) value -/
+theorem C12_flat_rule_is_truncation (L : Nat) : ∀ (l : Nat) (t : Tree), l ≤ L →
+    ((flat l t).filter (keepCell L)).map (fun c => (c.1, c.2.2)) = leaves l (truncate L l t)
+  | l, .leaf v, h => by simp [flat, keepCell, truncate, leaves, h]
+  | l, .node v ks, h => by
+    simp only [flat, truncate, List.filter_cons]
+    by_cases hl : l ≥ L
+    · have hk : keepCell L (l, true, v) = true := by simp [keepCell]; omega
+      rw [hk, if_pos hl]
+      simp [leaves, flatList_above L (l+1) ks (by omega)]
+    · have hk : keepCell L (l, true, v) = false := by simp [keepCell]; omega
+      rw [hk, if_neg hl]
+      simpa [leaves] using flatList_truncation L (l+1) ks (by omega)
+theorem flatList_truncation (L : Nat) : ∀ (l : Nat) (ks : List Tree), l ≤ L →
+    ((flat.flatList l ks).filter (keepCell L)).map (fun c => (c.1, c.2.2)) = leaves.leavesList l (truncate.truncList L l ks)
+  | _, [], _ => by simp [flat.flatList, truncate.truncList, leaves.leavesList]
+  | l, k :: ks, h => by
+    simp only [flat.flatList, List.filter_append, List.map_append, truncate.truncList, leaves.leavesList,
+      C12_flat_rule_is_truncation L l k h, flatList_truncation L l ks h]
+end
+
+/-- **C12 (no holes, flat form)**: the cells the per-cell rule keeps fill the root cell exactly, whatever the cap -/
+theorem C12_flat_rule_volume (a D L : Nat) (ha : 0 < a) (t : Tree) (hwf : WF a t) (hfit : fits D 0 t) :
+    vol a D (((flat 0 t).filter (keepCell L)).map (fun c => (c.1, c.2.2))) = a ^ D := by
+  rw [C12_flat_rule_is_truncation L 0 t (Nat.zero_le _)]
+  exact C12_truncated_volume a D L ha t hwf hfit
+
+/-- non-vacuity: a two-level quadtree capped at level 1 -/
+example : ((flat 0 (.node 9 [.leaf 1, .node 2 [.leaf 5, .leaf 6, .leaf 7, .leaf 8], .leaf 3, .leaf 4])).filter (keepCell 1)).map
+    (fun c => (c.1, c.2.2)) = [(1, 1), (1, 2), (1, 3), (1, 4)] := by decide
+
 /-- `find_max_amr_level`: `lmaxOf` never exceeds levelmax, and a predicate `level <= k` gives min k levelmax -/
 theorem C12_lmax_le (o : Ramses.Output) (preds : List Loader.Pred) : LoadEngine.lmaxOf o preds ≤ o.levelmax := by
   unfold LoadEngine.lmaxOf
